@@ -982,7 +982,7 @@ fn case_strategy() -> impl Strategy<Value = Case> {
 
 fn run(ctx: &mut Ctx) {
     let n = ctx.n(6000, 600_000);
-    ctx.run("deserialize", n, case_strategy, oracle);
+    ctx.run_fast("deserialize", n, case_strategy, oracle);
     ctx.assumptions.push("conversions the statement does not list (Bool->number, DateTime/ISO->number or bool, Empty->number, strings that are numeric only after trimming) are wildcards: only absence of panics is checked".into());
     ctx.assumptions.push("header names are unique after trimming; header cells are strings".into());
     ctx.assumptions.push("a record with several failing cells may report any one of them".into());
